@@ -21,6 +21,7 @@
 #define SOLREADER2_HPP
 
 #include <cstdio>
+#include <climits>
 
 #include "mp/sol-reader2.h"
 
@@ -295,7 +296,9 @@ bad_nOpts:
     // Handler says we should stop:
     if (auto rv = Handler().OnAMPLOptions(ao)) {
       internal_rv_ = rv;
-      return NLW2_SOLRead_Bad_Options;
+      serror("AMPL options in '%s' not accepted (code %d)",
+             stub_, (int)rv);
+      return readresult_ = NLW2_SOLRead_Bad_Options;
     }
 
     // Some checks.
@@ -458,6 +461,8 @@ NLW2_SOLReadResultCode SOLReader2<SOLHandler>::bsufread(FILE* f) {
       return NLW2_SOLRead_Bad_Suffix;
     if (fread(&SR.h, sizeof(SufHead), 1, f) != 1)
       return ReportEarlyEof();
+    if (SR.h.tablen < 0)
+      return NLW2_SOLRead_Bad_Suffix;
     SR.tablines = SR.h.tablen - 1;
     if (strncmp(SR.h.sufid, "\nSuffix\n", 8)
         || sufheadcheck(&SR))
@@ -499,7 +504,9 @@ Lget(char **sp, int *Lp)
     return 1;
   L = c - '0';
   while((c = *s) >= '0' && c <= '9') {
-    L = 10*L + c - '0';
+    if (L > (INT_MAX - (c - '0')) / 10)
+      return 1;                  // does not fit into int
+    L = 10*L + (c - '0');
     s++;
   }
   *Lp = L;
@@ -544,6 +551,8 @@ NLW2_SOLReadResultCode SOLReader2<SOLHandler>::gsufread(FILE* f) {
                 || buf[SR.h.namelen] != '\n')))
       return ReportBadLine(buf);
     buf[SR.h.namelen-1] = 0;
+    if (strlen(buf) != (size_t)SR.h.namelen-1)   // NUL inside the name
+      return ReportBadLine(buf);
     strcpy(SR.name, buf);
     if (SR.h.tablen) {
       s = SR.table;
@@ -589,6 +598,10 @@ int SOLReader2<SOLHandler>::sufheadcheck(SufRead* sr) {
   n = (int)sr->h.n;
   if (sr->h.kind < 0 || sr->h.kind > 15 || n < 0 || sr->h.namelen < 2
    || sr->h.tablen < 0)
+    return 1;
+  /// The lengths come from the file: keep the size computations
+  /// below (and the line buffer in gsufread()) in range
+  if (sr->h.namelen > MAX_SUF_NAMELEN || sr->h.tablen > MAX_SUF_TABLEN)
     return 1;
   i = (int)sr->h.kind & 3;
   if (sr->h.tablen
